@@ -3,6 +3,7 @@ package main
 import (
 	"encoding/json"
 	"fmt"
+	"github.com/scrapli/scrapligo/driver/opoptions"
 	"github.com/scrapli/scrapligo/driver/options"
 	"github.com/scrapli/scrapligo/util"
 	"reflect"
@@ -71,6 +72,11 @@ func c09Run(s *c09Scn, segName string) verdict {
 	if s.idx%3 == 0 {
 		// the option changes what later requests look like, not how they are framed
 		extra = append(extra, options.WithNetconfForceSelfClosingTags())
+	}
+
+	if s.idx%7 == 4 && s.Class == "ok" {
+		// "no timeout": zero stands for the longest possible wait, for the hello exchange as for every operation
+		extra = append(extra, options.WithTimeoutOps(0))
 	}
 
 	sess, err := newNcSession(ncConfig{adv10: s.Adv10, adv11: s.Adv11, preferred: pref, echo: s.Echo, seg: faultSegs[segName], seed: int64(s.idx),
@@ -144,7 +150,29 @@ func c09Run(s *c09Scn, segName string) verdict {
 			fail(&v, "C09:open-success-without-hello", "the write of the client's hello failed, Open reported success (%s)", cell)
 		}
 
-		return v
+		if !v.OK || s.Class != "ok" || oerr == nil {
+			return v
+		}
+
+		// the usual reaction: try again on the same object. This Open is an Open like any other: everything below holds for it
+		sess.pipe.Lock()
+		sess.srv.Requests, sess.srv.FramingErrors = nil, nil
+		sess.pipe.Unlock()
+
+		fin, pan = withWatchdog(8*time.Second, func() {
+			if s.idx%2 == 0 {
+				_ = sess.d.Close()
+			}
+
+			oerr = sess.d.Open()
+		})
+		if !fin || pan != nil {
+			fail(&v, "C09:open-again-after-failed-open", "Open after an Open that failed at the write of the hello: returned=%v panic=%v", fin, pan)
+
+			return v
+		}
+
+		cell += ",after-a-failed-open"
 	}
 
 	got := errClass(oerr)
@@ -212,7 +240,9 @@ func c09Run(s *c09Scn, segName string) verdict {
 	}
 
 	// later traffic uses the selected framing: one RPC, strictly decoded by the server in the framing both hellos imply
-	r, gerr := sess.d.Get("")
+	// (with the connection-wide value 0 the operation names its own timeout: what the connection-wide zero means for an
+	// operation is not part of this property)
+	r, gerr := sess.d.Get("", opoptions.WithTimeoutOps(3*time.Second))
 	sess.pipe.Lock()
 	ferrs = append([]string(nil), sess.srv.FramingErrors...)
 	nreq := len(sess.srv.Requests)
